@@ -711,6 +711,24 @@ pub fn gen_c07(thorough: bool, seed: u64) -> Vec<Episode> {
             eps.push(Episode { n, tys: "both", ops });
         }
     }
+    // long lists (the same few functions listed hundreds or thousands of times): whatever the implementation
+    // does per batch or per group of listed functions, shared nodes are counted once
+    for n in [3usize, 7, 8, 9, 10, 11] {
+        let tables = structured(n, &mut r);
+        let blocks = if n <= 6 { 1 } else { 1usize << (n - 6) };
+        let mut ops = Vec::new();
+        for s in 0..3 {
+            ops.push(load(s, n, &tables[r.gen_range(0..tables.len())]));
+        }
+        for len in [65usize, 4096 / blocks + 1, 2 * (4096 / blocks) + 3] {
+            if len > 5000 && !thorough {
+                continue;
+            }
+            let xs: Vec<usize> = (0..len).map(|k| k % 3).collect();
+            ops.push(json!({"op": "bdd", "xs": xs}));
+        }
+        eps.push(Episode { n, tys: tys_for(n), ops });
+    }
     eps
 }
 
@@ -1600,6 +1618,10 @@ pub fn gen_c10a(thorough: bool, seed: u64) -> Vec<Episode> {
             ops.push(rel(0, 1, fm));
         }
         ops.push(json!({"op": "bdd", "xs": [0, 1]}));
+        // a list long enough to pass any internal batching by block count (more than 4096 blocks in all)
+        let blocks = if n <= 6 { 1 } else { 1usize << (n - 6) };
+        let long: Vec<usize> = (0..(4096 / blocks + 1 + n % 3)).map(|k| k % 2).collect();
+        ops.push(json!({"op": "bdd", "xs": long}));
         ops.push(json!({"op": "info", "a": 0}));
         if n <= 7 {
             for kind in ["p", "n", "npn"] {
@@ -1928,7 +1950,14 @@ pub fn gen_c19(thorough: bool, _seed: u64) -> Vec<Episode> {
         // the same after a few draws of other sizes on the same thread (one single-word table, then larger ones,
         // then a count that is not a multiple of anything)
         let warm: Vec<usize> = vec![(n + 3) % 7, 7 + n % 6, 9, 2, 2, 2];
+        if thorough || n % 2 == 1 || n == 6 {
         eps.push(Episode { n, tys: "both", ops: vec![json!({"op": "rand_begin", "n": n, "threads": if n % 2 == 0 { 1 } else { 2 }, "count": 256, "warm": warm})] });
+        }
+        // ... and with a draw of another size (another number of words) between any two draws of the batch
+        let other = if n <= 6 { 7 + n % 3 } else if n % 2 == 0 { 6 } else { n - 1 };
+        if thorough || n % 2 == 0 || n == 7 {
+            eps.push(Episode { n, tys: "both", ops: vec![json!({"op": "rand_begin", "n": n, "threads": if n % 4 == 0 { 2 } else { 1 }, "count": 256, "inter": other})] });
+        }
     }
     if thorough {
         for n in [13usize, 14] {
